@@ -42,10 +42,11 @@ type typeRole struct {
 }
 
 type funcRole struct {
-	Pkg  string `json:"pkg"`
-	Recv string `json:"recv,omitempty"`
-	Name string `json:"name"`
-	Sig  string `json:"sig"` // receiver flattened into the first parameter
+	Pkg   string `json:"pkg"`
+	Recv  string `json:"recv,omitempty"`
+	Name  string `json:"name"`
+	Sig   string `json:"sig"` // receiver flattened into the first parameter
+	Label string `json:"label"`
 }
 
 type constRole struct {
@@ -62,18 +63,19 @@ type rolesBaseline struct {
 }
 
 type roleMaps struct {
-	typeCanon  map[*types.TypeName]string     // current type -> canonical name
-	typeByName map[string]*types.TypeName     // "rel/pkg.Canon" -> current type
-	fieldCanon map[string]string              // "rel/pkg.CanonType\x00current" -> canonical field name
-	funcByName map[string]*ssa.Function       // "rel/pkg\x00Recv\x00name" -> function
-	funcCanon  map[*ssa.Function]string       // current function -> canonical name
-	constBy    map[string]*types.Const        // "rel/pkg\x00name" -> const
-	renamed    []string                       // report
-	strRepl    *strings.Replacer              // current qualified type names -> canonical, inside type strings
+	typeCanon  map[*types.TypeName]string // current type -> canonical name
+	typeByName map[string]*types.TypeName // "rel/pkg.Canon" -> current type
+	fieldCanon map[string]string          // "rel/pkg.CanonType\x00current" -> canonical field name
+	funcByName map[string]*ssa.Function   // "rel/pkg\x00Recv\x00name" -> function
+	funcCanon  map[*ssa.Function]string   // current function -> canonical name
+	funcLabel  map[*ssa.Function]string   // renamed function -> its baseline label
+	constBy    map[string]*types.Const    // "rel/pkg\x00name" -> const
+	renamed    []string                   // report
+	strRepl    *strings.Replacer          // current qualified type names -> canonical, inside type strings
 }
 
 var roles = &roleMaps{typeCanon: map[*types.TypeName]string{}, typeByName: map[string]*types.TypeName{}, fieldCanon: map[string]string{},
-	funcByName: map[string]*ssa.Function{}, funcCanon: map[*ssa.Function]string{}, constBy: map[string]*types.Const{}}
+	funcByName: map[string]*ssa.Function{}, funcCanon: map[*ssa.Function]string{}, funcLabel: map[*ssa.Function]string{}, constBy: map[string]*types.Const{}}
 
 func relPkg(path string) string {
 	if path == modPath {
@@ -191,7 +193,7 @@ func dumpRoles(p *Program, path string) {
 		if p.isTestScaffold(f) {
 			continue
 		}
-		b.Funcs = append(b.Funcs, funcRole{Pkg: relPkg(f.Pkg.Pkg.Path()), Recv: recvName(f), Name: f.Name(), Sig: flatSig(f, identity)})
+		b.Funcs = append(b.Funcs, funcRole{Pkg: relPkg(f.Pkg.Pkg.Path()), Recv: recvName(f), Name: f.Name(), Sig: flatSig(f, identity), Label: strings.ReplaceAll(f.String(), modPath+"/", "")})
 	}
 	sort.Slice(b.Funcs, func(i, j int) bool {
 		a, c := b.Funcs[i], b.Funcs[j]
@@ -384,6 +386,9 @@ func (p *Program) resolveRoles() {
 				claimed[f] = true
 				roles.funcByName[k] = f
 				roles.funcCanon[f] = fr.Name
+				if fr.Label != "" {
+					roles.funcLabel[f] = fr.Label
+				}
 				roles.renamed = append(roles.renamed, fmt.Sprintf("func %s.%s%s -> %s", fr.Pkg, map[bool]string{true: fr.Recv + ".", false: ""}[fr.Recv != ""], fr.Name, f.String()))
 			}
 		}
